@@ -281,6 +281,7 @@ Violation ComputeViolation(
   if (!x.recomp_vals()) {    // solver's var values: normal check
     auto viol = x[resvar] - ComputeValue(c, x);
     switch (c.GetContext().GetValue()) {
+    case Context::CTX_NONE:   // mixed if not set, as for conversion
     case Context::CTX_MIX:
       return {std::fabs(viol), x[resvar]};
     case Context::CTX_POS:
@@ -395,6 +396,7 @@ public:
     bool ccon_valid = viol.viol_<=0.0;
     bool has_arg = x[GetResultVar()] >= 0.5;
     switch (this->GetContext().GetValue()) {
+    case Context::CTX_NONE:   // mixed if not set, as for conversion
     case Context::CTX_MIX:    // Viol is non-positive if holds
       if (has_arg == ccon_valid)
         return {0.0, 0.0};
